@@ -385,7 +385,16 @@ func judgeTerm(sc *Scenario, res *result) (misses []miss, classes []string) {
 		// echoed, no upstream marker) carries the status of an upstream reply that was written in the same moment and lost
 		// against the termination - clientStream.handleResponse overwrites the status variable before the proxy refuses it
 		leaked := false
-		if sc.Proto == "Http1" && first.Origin == "mosn" && !isTerm && len(trueCalls) > 0 {
+		failureInjected := false
+		for _, a := range res.Arrivals {
+			if a.Step.Kind == "reset" || a.Step.Kind == "garbage" {
+				failureInjected = true
+			}
+		}
+		// (with or without a termination: the global timeout's reply is prepared the same way; a status that an injected
+		// failure explains anyway is not attributed to the leak)
+		if c := statusClass(sc.Proto, first.Status); sc.Proto == "Http1" && first.Origin == "mosn" && !isTerm && c != "timeout" && c != "no-route" &&
+			(len(trueCalls) > 0 || c == "" || !failureInjected) {
 			for _, a := range res.Arrivals {
 				want := 200
 				if a.Step.Kind == "reply5xx" {
@@ -473,6 +482,11 @@ func judgeTerm(sc *Scenario, res *result) (misses []miss, classes []string) {
 		// failure handled in the same moment); the worker's next phase drains the notification, sends the retry attempt
 		// and then waits for an event that cannot come - the timers are stopped and the claim makes every later answer lose
 		add(true, "never-completes:terminated-while-a-retry-was-being-set-up", "TerminateStream returned true at %d us, a retry attempt still reached an upstream afterwards, the client never got a reply and the request is still active %d us after the start (calls %+v)", trueCalls[0].AtUs, res.ActiveAfterUs, res.Term)
+	} else if cause := hangCause(sc, res); res.ActiveAtEnd > 0 && res.ActiveLiveness == "proxy-alive" && len(trueCalls) == 0 && first == nil &&
+		(cause == "global-timeout-fired-while-retry-was-being-set-up" || cause == "retry-budget-above-9:phase-loop-exhausted") {
+		// no call claimed the request: this is the terminal part's listed finding (the global timer's notification was
+		// swallowed while a retry was being set up), met in a terminate scenario
+		misses = append(misses, miss{Sig: "never-completes:" + cause, Hard: true, Msg: fmt.Sprintf("no reply, request still active %d us after the start, an attempt reached an upstream after the global timeout; no TerminateStream call returned true (calls %+v)", res.ActiveAfterUs, res.Term)})
 	} else if res.ActiveAtEnd > 0 && res.ActiveLiveness == "proxy-alive" {
 		add(true, "never-completes:request-still-active-after-its-outcome:"+sc.Proto, "%d request(s) still active in the proxy %d us after the start (calls %+v)", res.ActiveAtEnd, res.ActiveAfterUs, res.Term)
 	}
